@@ -199,7 +199,17 @@ pub fn valid(name: &str, hyps: &[F], goal: &F) -> Tri {
     if *goal == F::True {
         // syntactically identical terms: nothing to ask the solver; still recorded
         ctx(|c| {
-            c.obligations.push(ObRecord { name: name.into(), kind: "VALID", verdict: "held".into(), answer: "trivial (identical terms)".into(), ms: 0.0, bytes: 0, nvars: 0, nasserts: 0, cross: vec![] })
+            c.obligations.push(ObRecord {
+                name: name.into(),
+                kind: "VALID",
+                verdict: "held".into(),
+                answer: "trivial (identical terms)".into(),
+                ms: 0.0,
+                bytes: 0,
+                nvars: 0,
+                nasserts: 0,
+                cross: vec![],
+            })
         });
         return Tri::Yes;
     }
@@ -212,10 +222,36 @@ pub fn valid(name: &str, hyps: &[F], goal: &F) -> Tri {
     // counterexample; the solver only has to confirm the ground system (ms instead of a model search)
     if hyps.iter().all(sx::eval) && !sx::eval(goal) {
         let m = shadow_model(&asserts);
-        let st2 = ctx(|c| c.solvers.check_pinned(&format!("{} [shadow counterexample]", name), &asserts, to, false, Some(&HashMap::new())));
+        let st2 = ctx(|c| {
+            c.solvers
+                .check_pinned(&format!("{} [shadow counterexample]", name), &asserts, to, false, Some(&HashMap::new()))
+        });
         if let Answer::Sat(_) = st2.answer {
             record(name, "VALID", "violated", &st2);
             return Tri::No(m);
+        }
+    }
+    // constructive search over the prover-controlled atoms registered by the harness (affine kernel direction): tried
+    // first, so that a counterexample - when one exists in that space - differs from the honest run only in those atoms
+    // and can be replayed against the real crates
+    let xs = CEX_UNKNOWNS.with(|x| x.borrow().clone());
+    if !xs.is_empty() {
+        if let Some(cand) = crate::affine::counterexample(hyps, goal, &xs) {
+            let mut values: HashMap<u32, fq::U256> = HashMap::new();
+            let mut model = shadow_model(&asserts);
+            for (k, v) in &cand {
+                values.insert(*k, *v);
+                let nm = sx::with(|a| a.vars[*k as usize].name.clone());
+                model.insert(nm, fq::to_dec(v));
+            }
+            let st3 = ctx(|c| {
+                c.solvers
+                    .check_pinned(&format!("{} [constructed counterexample]", name), &asserts, to, false, Some(&values))
+            });
+            if let Answer::Sat(_) = st3.answer {
+                record(name, "VALID", "violated", &st3);
+                return Tri::No(model);
+            }
         }
     }
     let t_dbg = Instant::now();
@@ -241,7 +277,12 @@ pub fn valid(name: &str, hyps: &[F], goal: &F) -> Tri {
             }
             if !mc {
                 record(name, "VALID", "inconclusive", &st);
-                ctx(|c| c.inconclusive.push(format!("{}: the solver's counterexample does not check under native F_q evaluation (encoding or solver error)", name)));
+                ctx(|c| {
+                    c.inconclusive.push(format!(
+                        "{}: the solver's counterexample does not check under native F_q evaluation (encoding or solver error)",
+                        name
+                    ))
+                });
                 return Tri::Unknown("model does not check natively".into());
             }
             record(name, "VALID", "violated", &st);
@@ -252,7 +293,10 @@ pub fn valid(name: &str, hyps: &[F], goal: &F) -> Tri {
             let shadow_cex = hyps.iter().all(sx::eval) && !sx::eval(goal);
             if shadow_cex {
                 let m = shadow_model(&asserts);
-                let st2 = ctx(|c| c.solvers.check_pinned(&format!("{} [pinned shadow counterexample]", name), &asserts, to, false, Some(&HashMap::new())));
+                let st2 = ctx(|c| {
+                    c.solvers
+                        .check_pinned(&format!("{} [pinned shadow counterexample]", name), &asserts, to, false, Some(&HashMap::new()))
+                });
                 if st2.answer == Answer::Unsat || matches!(st2.answer, Answer::Unknown(_)) {
                     record(name, "VALID", "inconclusive", &st2);
                     ctx(|c| c.inconclusive.push(format!("{}: shadow counterexample not confirmed by solver", name)));
@@ -260,24 +304,6 @@ pub fn valid(name: &str, hyps: &[F], goal: &F) -> Tri {
                 }
                 record(name, "VALID", "violated", &st2);
                 return Tri::No(m);
-            }
-            // constructive search over the prover-controlled atoms registered by the harness (affine kernel direction)
-            let xs = CEX_UNKNOWNS.with(|x| x.borrow().clone());
-            if !xs.is_empty() {
-                if let Some(cand) = crate::affine::counterexample(hyps, goal, &xs) {
-                    let mut values: HashMap<u32, fq::U256> = HashMap::new();
-                    let mut model = shadow_model(&asserts);
-                    for (k, v) in &cand {
-                        values.insert(*k, *v);
-                        let nm = sx::with(|a| a.vars[*k as usize].name.clone());
-                        model.insert(nm, fq::to_dec(v));
-                    }
-                    let st3 = ctx(|c| c.solvers.check_pinned(&format!("{} [constructed counterexample]", name), &asserts, to, false, Some(&values)));
-                    if let Answer::Sat(_) = st3.answer {
-                        record(name, "VALID", "violated", &st3);
-                        return Tri::No(model);
-                    }
-                }
             }
             record(name, "VALID", "inconclusive", &st);
             ctx(|c| c.inconclusive.push(format!("{}: solver answered {}", name, s)));
@@ -290,7 +316,10 @@ thread_local! { static CEX_UNKNOWNS: RefCell<std::collections::HashSet<u32>> = R
 /// Register the prover-controlled atoms (variables) over which a counterexample may be constructed when the solver
 /// cannot decide an accept-implies-relation obligation.
 pub fn set_cex_unknowns(terms: &[sx::Tid]) {
-    let vs: std::collections::HashSet<u32> = terms.iter().filter_map(|t| if let sx::Node::Var(v) = sx::node_of(*t) { Some(v) } else { None }).collect();
+    let vs: std::collections::HashSet<u32> = terms
+        .iter()
+        .filter_map(|t| if let sx::Node::Var(v) = sx::node_of(*t) { Some(v) } else { None })
+        .collect();
     CEX_UNKNOWNS.with(|x| *x.borrow_mut() = vs);
 }
 
@@ -299,7 +328,11 @@ fn shadow_model(asserts: &[F]) -> HashMap<String, String> {
     for f in asserts {
         vs.extend(solver::formula_vars(f));
     }
-    sx::with(|a| vs.iter().map(|v| (a.vars[*v as usize].name.clone(), fq::to_dec(&a.vars[*v as usize].shadow))).collect())
+    sx::with(|a| {
+        vs.iter()
+            .map(|v| (a.vars[*v as usize].name.clone(), fq::to_dec(&a.vars[*v as usize].shadow)))
+            .collect()
+    })
 }
 
 /// Candidate-model query: is `hyps ∧ extra` satisfied by the shadow assignment with the given variables
@@ -346,7 +379,12 @@ pub fn candidate_model_with(name: &str, kind: &'static str, hyps: &[F], extra: &
         }
         _ => {
             record(name, kind, "inconclusive", &st);
-            ctx(|c| c.inconclusive.push(format!("{}: native evaluation says the candidate is a model, the solver does not confirm it", name)));
+            ctx(|c| {
+                c.inconclusive.push(format!(
+                    "{}: native evaluation says the candidate is a model, the solver does not confirm it",
+                    name
+                ))
+            });
             None
         }
     }
@@ -419,7 +457,10 @@ pub fn satisfiable_opt(name: &str, kind: &'static str, hyps: &[F], extra: &F, fa
         Answer::Sat(m) => {
             if !model_checks(&asserts, m) {
                 record(name, kind, "inconclusive", &st);
-                ctx(|c| c.inconclusive.push(format!("{}: the solver's model does not check under native F_q evaluation", name)));
+                ctx(|c| {
+                    c.inconclusive
+                        .push(format!("{}: the solver's model does not check under native F_q evaluation", name))
+                });
                 return (Tri::Unknown("model does not check natively".into()), None);
             }
             record(name, kind, "sat", &st);
@@ -450,7 +491,12 @@ pub fn prove_under(name: &str, key: &str, hyps: &[F], goal: &F) -> bool {
     match valid(name, hyps, goal) {
         Tri::Yes => true,
         Tri::No(m) => {
-            finding(key, &format!("obligation '{}' has a counterexample", name), Some(m), json!({"kind": "model", "obligation": name, "natively_rechecked": true}));
+            finding(
+                key,
+                &format!("obligation '{}' has a counterexample", name),
+                Some(m),
+                json!({"kind": "model", "obligation": name, "natively_rechecked": true}),
+            );
             false
         }
         Tri::Unknown(_) => false,
@@ -465,7 +511,12 @@ pub fn finding(key: &str, detail: &str, model: Option<HashMap<String, String>>, 
         if !c.quiet {
             eprintln!("  [{}] FINDING {} :: {}", c.prop, key, detail);
         }
-        c.findings.push(Finding { key: key.to_string(), detail: detail.to_string(), model, replay });
+        c.findings.push(Finding {
+            key: key.to_string(),
+            detail: detail.to_string(),
+            model,
+            replay,
+        });
     })
 }
 pub fn inconclusive(msg: &str) {
@@ -550,12 +601,27 @@ pub fn raw_unsat(name: &str, key: &str, body: &str) -> bool {
         if !c.quiet {
             eprintln!("  [{}] RAW     {:<12} {:>8.1} ms  {:>7} B  {}", c.prop, verdict, ms, script.len(), name);
         }
-        c.obligations.push(ObRecord { name: name.into(), kind: "VALID", verdict: verdict.into(), answer: ans.clone(), ms, bytes: script.len(), nvars: 0, nasserts: 0, cross: vec![] });
+        c.obligations.push(ObRecord {
+            name: name.into(),
+            kind: "VALID",
+            verdict: verdict.into(),
+            answer: ans.clone(),
+            ms,
+            bytes: script.len(),
+            nvars: 0,
+            nasserts: 0,
+            cross: vec![],
+        });
     });
     match verdict {
         "held" => true,
         "violated" => {
-            finding(key, &format!("integer obligation '{}' has a counterexample", name), None, json!({"kind":"model"}));
+            finding(
+                key,
+                &format!("integer obligation '{}' has a counterexample", name),
+                None,
+                json!({"kind":"model"}),
+            );
             false
         }
         _ => {
